@@ -137,6 +137,7 @@ class _Worker:
         import argparse
         from mesonbuild import mformat, mlog
         mlog._logger.log_disable_stdout = True      # parser warnings (duplicate kwargs, ...) are not under test
+        self.pid = os.getpid()
         self.root = os.path.join(scratch, f'w{os.getpid()}')
         os.makedirs(self.root, exist_ok=True)
         self.cache: T.Dict[str, T.Tuple[T.Any, str]] = {}
@@ -170,7 +171,7 @@ _W: T.Optional[_Worker] = None
 
 def worker(scratch: str) -> _Worker:
     global _W
-    if _W is None or not _W.root.startswith(scratch):
+    if _W is None or _W.pid != os.getpid() or not _W.root.startswith(scratch):      # never share directories across forks
         _W = _Worker(scratch)
     return _W
 
@@ -307,31 +308,33 @@ def _single_arg_call(toks: T.List[R.Tok]) -> bool:
         if toks[x].kind == 'id' and toks[y].kind == 'op' and toks[y].text == '(':
             e = _match(toks, y)
             inner = [k for k in sig if y < k < e]
+            views = [inner]
             if toks[x].text == 'files' and inner and toks[inner[0]].kind == 'op' and toks[inner[0]].text == '[':
                 m = _match(toks, inner[0])
-                if all(toks[k].text == ',' for k in inner if k > m):       # files([...]) is flattened first
-                    inner = [k for k in inner if inner[0] < k < m]
-            if not inner:
-                continue
-            trailing = toks[inner[-1]].kind == 'op' and toks[inner[-1]].text == ','
-            d = 0
-            commas = 0
-            for k in inner:
-                t = toks[k]
-                if t.kind == 'op' and t.text in '([{':
-                    d += 1
-                elif t.kind == 'op' and t.text in ')]}':
-                    d -= 1
-                elif d == 0 and t.kind == 'op' and t.text == ',':
-                    commas += 1
-            if commas == (1 if trailing else 0):
-                return True
+                if all(toks[k].text == ',' for k in inner if k > m):       # files([...]) may be flattened first
+                    views.append([k for k in inner if inner[0] < k < m])
+            for view in views:
+                if not view:
+                    continue
+                trailing = toks[view[-1]].kind == 'op' and toks[view[-1]].text == ','
+                d = 0
+                commas = 0
+                for k in view:
+                    t = toks[k]
+                    if t.kind == 'op' and t.text in '([{':
+                        d += 1
+                    elif t.kind == 'op' and t.text in ')]}':
+                        d -= 1
+                    elif d == 0 and t.kind == 'op' and t.text == ',':
+                        commas += 1
+                if commas == (1 if trailing else 0):
+                    return True
     return False
 
 
 def _grouping_paren_with_brackets(toks: T.List[R.Tok]) -> bool:
     """a grouping parenthesis (one that is not a call's) which contains another bracket of any kind"""
-    sig = _sig_toks(toks)
+    sig = [k for k, t in enumerate(toks) if t.kind not in ('comment', 'cont', 'eof') and not (t.kind == 'nl' and t.depth > 0)]
     for n, k in enumerate(sig):
         t = toks[k]
         if t.kind == 'op' and t.text == '(' and not (n > 0 and toks[sig[n - 1]].kind == 'id'):
@@ -762,7 +765,7 @@ KWNAMES = ['sources', 'dependencies', 'install', 'required', 'c_args', 'name', '
 FILENAMES = ['a.c', 'b.c', 'b10.c', 'b2.c', 'sub/z.c', 'A.c', 'main.cpp', 'sub/a.c', 'x_1.c', 'x_01.c']
 STR_PIECES = ['a', 'b', 'abc', ' ', 'foo bar', 'x.c', '/', '-', '--opt', '#', '[', '(', ')', ',', ':', '@', '@x@', '@0@', '@ x@',
               'é', '→', '"', '{', '}', 'lorem ipsum dolor sit amet', '%', '=']
-ESC_PIECES = ['\\\\', "\\'", '\\n', '\\t', '\\x41', '\\101', '\\7', '\\u00e9', '\\U0001f600', '\\N{BULLET}', '\\q', '\\ ', '\\x4', '\\d+', '\\@']
+ESC_PIECES = ['\\x40', '\\x40x\\x40', '\\100y\\100', '\\\\', "\\'", '\\n', '\\t', '\\x41', '\\101', '\\7', '\\u00e9', '\\U0001f600', '\\N{BULLET}', '\\q', '\\ ', '\\x4', '\\d+', '\\@']
 ML_PIECES = ['\n', '\n  ', "'", "''", ' # not a comment\n', '\\', '\\n', '\\\\', '\\d', "\\'", '\t']
 COMMENT_BODIES = ['# c{n}', '#c{n}', '# c{n}   ', '#', '##  c{n}', "# it's c{n} 'q' ''' [ ( {{", '# c{n} \\', '#!c{n}', '# é→ c{n}',
                   '#\tc{n}', '# c{n} # more', '#  ', '# c{n} trailing\t ']
@@ -792,7 +795,7 @@ class Em:
         self.defused = 0
 
     def chance(self, pct: int) -> bool:
-        return self.ent.below(100) < pct
+        return self.ent.below(100) >= 100 - pct        # zero / exhausted entropy -> False
 
     def pick(self, seq: T.Sequence[T.Any]) -> T.Any:
         return seq[self.ent.below(len(seq))]
@@ -811,10 +814,10 @@ class Em:
 
     def gap(self, need: bool) -> str:
         base = ' ' if need else ''
-        if self.p == 0 or self.ent.below(100) >= self.p:
+        if self.p == 0 or self.ent.below(100) < 100 - self.p:
             return base
         if self.depth > 0:
-            k = self.rint(0, 9)
+            k = self.pick([0, 0, 1, 1, 2, 2, 2, 3, 3, 3, 4, 4, 4, 5, 5, 8, 8, 9, 9, 2, 3, 4, 6, 7])   # continuations inside brackets are rare
             if k == 0:
                 return ' '
             if k == 1:
@@ -1654,10 +1657,16 @@ def _corpus_plain_shard(shard: T.Tuple[int, int, int, str], ev: Evidence, fails:
 # ---------------------------------------------------------------------------
 # known genuine defects: one deterministic probe each (also stored under replays/regress)
 
-PROBES: T.List[dict] = [
-    {'src': "x = '''a\\nb'''\n", 'cfg': {}},
-    {'src': "x = 1 # a\x0cb\n", 'cfg': {}},
-    {'src': "x = files(['b', 'a'])\n", 'cfg': {'sort_files': True}},
+PROBES: T.List[T.Tuple[str, dict]] = [
+    ('string/ml-backslash-simplified', {'src': "x = '''a\\nb'''\n", 'cfg': {}}),
+    ('comments/line-separator-char-dropped', {'src': "x = 1 # a\x0cb\n", 'cfg': {}}),
+    ('comments/lost:files-list-flatten', {'src': "x = files(['a'] # c\n)\n", 'cfg': {}}),
+    ('idempotence/sort_files-after-flatten', {'src': "x = files(['b', 'a'])\n", 'cfg': {'sort_files': True}}),
+    ('idempotence/no_single_comma_function', {'src': "f(a,)\n", 'cfg': {'no_single_comma_function': True}}),
+    ('idempotence/multiline-parens-closer-indent', {'src': "x = (a + (b))\n", 'cfg': {'max_line_length': 10}}),
+    ('idempotence/continuation-in-brackets', {'src': "test('manyfiles', executable( \\\n'manyfiles'))\n", 'cfg': {}}),
+    ('idempotence/files-empty-list-comment',
+     {'src': "x = f(aaaaaaaaaaaaaaaaaaaaaaaaaaaaa, bbbbbbbbbbbbbbbbbbbbbbbbbbbbbbbbbbb, ccccccccccccccccccccccccc)\nfiles([ # c\n])\n", 'cfg': {}}),
 ]
 
 
@@ -1708,7 +1717,7 @@ def run(ctx: Ctx) -> None:
     scratch = ctx.scratch
     W = worker(scratch)
     # known findings: deterministic probes
-    for p in PROBES:
+    for _sig, p in PROBES:
         case = dict(p, ec=None, ec_flag=False, cli=False, crlf=False)
         f = evaluate(case, W, allow_known=True)
         ctx.ev.event('known_finding_probe')
